@@ -570,9 +570,10 @@ def decompress_destripe_cbin(
             else:
                 chunk = spatial_fcn(chunk)  # apply the k-filter / CAR
 
+            # mute the saturated samples on the electrode channels only: the sync trace is copied untouched
+            chunk = chunk * mute_saturation[np.newaxis, :]
             # add back sync trace and save
             chunk = np.r_[chunk, _sr[first_s:last_s, ncv:].T].T
-            chunk = chunk * mute_saturation[:, np.newaxis]
 
             # Compute rms - we get it before applying the whitening
             if compute_rms:
